@@ -21,7 +21,11 @@ Qed.
 Section ConnProofs.
   Variables p0 p1 : byte.
 
-  Definition wf_items (items : list (list byte * list byte)) : Prop := forallb (wf_item p0 p1) items = true.
+  (* an additional requirement on every message of the stream (none for C14_reassembly; "fits the largest message size" for
+     the __arm__ configuration, Proofs/ConnArmProofs.v) *)
+  Variable extra : list byte -> bool.
+  Definition wf_items (items : list (list byte * list byte)) : Prop :=
+    forallb (fun it => wf_item p0 p1 it && extra (snd it)) items = true.
 
   Lemma wf_msg_inv m : wf_msg p0 p1 m = true ->
     8 <= len m /\ len m < 4294967296 /\ (exists t, m = p0 :: p1 :: t) /\ payload_size m = len m - 8.
@@ -344,13 +348,14 @@ Section ConnProofs.
       rewrite filler_app in Ht. apply andb_true_iff in Ht. destruct Ht as [Hd Hf].
       split; [exact Hd |]. exists [], fut. repeat split; auto.
     - rewrite stream_of_cons in Hs. unfold wf_items in Hi. cbn [forallb] in Hi.
-      apply andb_true_iff in Hi. destruct Hi as [Hfm Hi]. unfold wf_item in Hfm. cbn [fst snd] in Hfm.
+      apply andb_true_iff in Hi. destruct Hi as [Hfm Hi]. apply andb_true_iff in Hfm. destruct Hfm as [Hfm Hex].
+      unfold wf_item in Hfm. cbn [fst snd] in Hfm, Hex.
       apply andb_true_iff in Hfm. destruct Hfm as [Hf Hm].
       destruct (le_lt_dec (length data) (length f)) as [Hle | Hgt].
       + left. destruct (app_split_le f (m ++ stream_of items' tail) data fut Hs Hle) as [e [Hfe Hfut]].
         subst f. rewrite filler_app in Hf. apply andb_true_iff in Hf. destruct Hf as [Hd He].
         split; [exact Hd |]. exists ((e, m) :: items'), tail. repeat split; auto.
-        * unfold wf_items. cbn [forallb]. unfold wf_item at 1. cbn [fst snd]. rewrite He, Hm, Hi. reflexivity.
+        * unfold wf_items. cbn [forallb]. unfold wf_item at 1. cbn [fst snd]. rewrite He, Hm, Hex. exact Hi.
         * rewrite stream_of_cons. exact Hfut.
       + right. destruct (app_split_ge f (m ++ stream_of items' tail) data fut Hs) as [e [Hde Hrest]]; [lia |].
         exists f, m, items', e. repeat split; auto.
@@ -397,7 +402,8 @@ Section ConnProofs.
         * (* the data reaches the first byte of the next message *)
           subst items. cbn [map snd].
           unfold wf_items in Hi. cbn [forallb] in Hi.
-          apply andb_true_iff in Hi. destruct Hi as [Hfm Hi]. unfold wf_item in Hfm. cbn [fst snd] in Hfm.
+          apply andb_true_iff in Hi. destruct Hi as [Hfm Hi]. apply andb_true_iff in Hfm. destruct Hfm as [Hfm Hex].
+          unfold wf_item in Hfm. cbn [fst snd] in Hfm.
           apply andb_true_iff in Hfm. destruct Hfm as [Hf Hm].
           destruct (wf_msg_inv m Hm) as (_ & _ & [t Hmt] & _).
           assert (d' = [p0] \/ exists t', d' = p0 :: p1 :: t') as Hshape.
@@ -463,15 +469,16 @@ Section ConnProofs.
     intros Hi Hs. destruct items as [| [f m] items].
     - unfold stream_of in Hs. cbn [flat_map app] in Hs. auto.
     - exfalso. rewrite stream_of_cons in Hs. unfold wf_items in Hi. cbn [forallb] in Hi.
-      apply andb_true_iff in Hi. destruct Hi as [Hfm _]. unfold wf_item in Hfm. cbn [fst snd] in Hfm.
+      apply andb_true_iff in Hi. destruct Hi as [Hfm _]. apply andb_true_iff in Hfm. destruct Hfm as [Hfm _].
+      unfold wf_item in Hfm. cbn [fst snd] in Hfm.
       apply andb_true_iff in Hfm. destruct Hfm as [_ Hm].
       destruct (wf_msg_inv m Hm) as (_ & _ & [t Hmt] & _). subst m.
       apply app_eq_nil in Hs. destruct Hs as [_ Hs]. discriminate Hs.
   Qed.
 
-  (* C14, main statement *)
-  Theorem reassembly items tail chunks :
-    forallb (wf_item p0 p1) items = true -> filler_ok p0 tail = true -> forallb chunk_ok chunks = true ->
+  (* C14, main statement (for streams whose messages also satisfy [extra]) *)
+  Theorem reassembly_x items tail chunks :
+    wf_items items -> filler_ok p0 tail = true -> forallb chunk_ok chunks = true ->
     concat chunks = stream_of items tail ->
     feed p0 p1 init chunks = Done init (map snd items).
   Proof.
@@ -488,15 +495,15 @@ Section ConnProofs.
 
   (* C14 for every PREFIX of a well-formed stream: what has been delivered after the chunks seen so far is exactly the
      list of messages completely contained in them; the pending bytes are a proper prefix of the next message *)
-  Theorem reassembly_prefix items tail chunks fut :
-    forallb (wf_item p0 p1) items = true -> filler_ok p0 tail = true -> forallb chunk_ok chunks = true ->
+  Theorem reassembly_prefix_x items tail chunks fut :
+    wf_items items -> filler_ok p0 tail = true -> forallb chunk_ok chunks = true ->
     concat chunks ++ fut = stream_of items tail ->
     exists st ds rest items' tail',
       feed p0 p1 init chunks = Done st ds /\
       map snd items = ds ++ cur_msgs (buf st) rest ++ map snd items' /\
       fut = rest ++ stream_of items' tail' /\
       (buf st = [] -> rest = [] /\ required st = 0) /\ (buf st <> [] -> rest <> []) /\
-      forallb (wf_item p0 p1) items' = true /\ filler_ok p0 tail' = true.
+      wf_items items' /\ filler_ok p0 tail' = true.
   Proof.
     intros Hi Ht Hc Hs.
     destruct (feed_good chunks init [] [] items tail fut Hc repr_idle Hi Ht)
@@ -510,6 +517,37 @@ Section ConnProofs.
     - destruct Hcases as [(Hg & Hr & Hq) | (Hg & Hr & _)]; [congruence | auto].
   Qed.
 End ConnProofs.
+
+(* without an additional requirement *)
+Definition no_extra (m : list byte) : bool := true.
+
+Lemma wf_items_plain p0 p1 items : wf_items p0 p1 no_extra items <-> forallb (wf_item p0 p1) items = true.
+Proof.
+  unfold wf_items, no_extra. induction items as [| it r IH]; [tauto |].
+  cbn [forallb]. rewrite andb_true_r, !andb_true_iff, IH. tauto.
+Qed.
+
+Theorem reassembly p0 p1 items tail chunks :
+  forallb (wf_item p0 p1) items = true -> filler_ok p0 tail = true -> forallb chunk_ok chunks = true ->
+  concat chunks = stream_of items tail ->
+  feed p0 p1 init chunks = Done init (map snd items).
+Proof. intros Hi. apply (reassembly_x p0 p1 no_extra). apply wf_items_plain. exact Hi. Qed.
+
+Theorem reassembly_prefix p0 p1 items tail chunks fut :
+  forallb (wf_item p0 p1) items = true -> filler_ok p0 tail = true -> forallb chunk_ok chunks = true ->
+  concat chunks ++ fut = stream_of items tail ->
+  exists st ds rest items' tail',
+    feed p0 p1 init chunks = Done st ds /\
+    map snd items = ds ++ cur_msgs (buf st) rest ++ map snd items' /\
+    fut = rest ++ stream_of items' tail' /\
+    (buf st = [] -> rest = [] /\ required st = 0) /\ (buf st <> [] -> rest <> []) /\
+    forallb (wf_item p0 p1) items' = true /\ filler_ok p0 tail' = true.
+Proof.
+  intros Hi Ht Hc Hs.
+  destruct (reassembly_prefix_x p0 p1 no_extra items tail chunks fut (proj2 (wf_items_plain p0 p1 items) Hi) Ht Hc Hs)
+    as (st & ds & rest & items' & tail' & H1 & H2 & H3 & H4 & H5 & H6 & H7).
+  exists st, ds, rest, items', tail'. repeat split; auto; try (apply H4; assumption). apply wf_items_plain. exact H6.
+Qed.
 
 (* C14, raw-data receiver: every non-empty chunk is passed on unmodified, in order, and nothing else *)
 Theorem raw_exact chunks : feed_raw chunks = filter (fun c => negb (len c =? 0)) chunks.
